@@ -232,6 +232,20 @@ impl Prop for C14 {
                     return;
                 }
                 let want = expected_localized(g, lang, path);
+                // nothing is there yet: for every other path the localized queries are asked first (and must say so); what they answered
+                // before the write must not influence what they answer after it
+                if path.len() % 2 == 0 && want.is_some() {
+                    let before = cx.call(|| (fs.read(path, true).is_err(), matches!(fs.exists(path, true), Ok(false)), matches!(fs.file_exists(path, true), Ok(false)), fs.resolve(path, true).is_none(), fs.list(path, None, true).map(|v| v.is_empty()).unwrap_or(true)));
+                    match before {
+                        Some(b) => {
+                            if !cx.check(b == (true, true, true, true, true), "fs-nothing-there-before-the-write", || format!("{g:?}/{lang:?} {path:?} on empty layers: (read is_err, exists = false, file_exists = false, resolve = None, list empty) = {b:?}")) {
+                                return;
+                            }
+                        }
+                        None => return,
+                    }
+                    cx.label("fs-queried-before-the-localized-write");
+                }
                 let w = match cx.call(|| fs.write(path, &bytes, true)) {
                     Some(r) => r,
                     None => return,
